@@ -51,7 +51,7 @@ static const int MAXFR = 16384;
 
 // Ambient garbage: every C++ allocation is filled with g_fill (and, outside AddressSanitizer, glibc's
 // M_PERTURB does the same for malloc).  The observed run and solo run 1 use 0x00 (what a fresh process
-// sees), solo run 2 uses 0xA5: output that depends on uninitialised heap memory then differs between the
+// sees), solo run 2 uses another byte (0xA5, 0xB4, 0x28, 0xFF or 0x4C, by execution): output that depends on uninitialised heap memory then differs between the
 // two repetitions instead of depending on allocator luck.
 static volatile int g_fill = 0;
 #if !ISO_TSAN   // the ThreadSanitizer runtime brings its own (strong) operator new
@@ -293,7 +293,10 @@ static int childRun(const Exec &ex, int which, int fd)
     {
         for(int rep = 0; rep < 2; ++rep)
         {
-            setFill(rep ? 0xA5 : 0);
+            // second solo run: another garbage byte; it varies with the execution because what a stray byte does depends on
+            // where it lands (0xA5 written to FM register 0xA5 is inaudible, 0xB4 / 0x28 hit pan and key-on registers)
+            static const int fills[5] = { 0xA5, 0xB4, 0x28, 0xFF, 0x4C };
+            setFill(rep ? fills[ex.cmds.size() % 5] : 0);
             Inst in;
             for(size_t k = 0; k < ex.cmds.size(); ++k)
             {
